@@ -5,7 +5,8 @@
 EXTENDS WnLmf, TLC
 VARIABLE m
 Kinds == {"none", "requote", "reorder", "doctype_quotes", "drop_attr", "rename", "foreign_elem",
-          "dup_child", "unbalance", "no_xmldecl", "no_doctype", "bad_version", "blank_first_line"}
+          "dup_child", "unbalance", "no_xmldecl", "no_doctype", "bad_version", "blank_first_line",
+          "comment", "redump", "charref", "bom", "leading_space", "header_ws"}
 Attrs == {"id", "version", "label", "language", "email", "license", "url", "citation", "logo",
           "writtenForm", "partOfSpeech", "script", "category", "synset", "target", "relType",
           "ili", "lexicalized", "subcategorizationFrame", "note", "~"}
